@@ -318,7 +318,10 @@ func (e *EventPublisher) Subscribe(req *SubscribeRequest) (*Subscription, error)
 
 		topicBuf.refs--
 
-		if topicBuf.refs == 0 {
+		// The buffer may already have been replaced by forceEvictByTopicLocked (the
+		// state store was restored): then neither the map entry nor the cached
+		// snapshot belong to this subscription's buffer any more.
+		if topicBuf.refs == 0 && e.topicBuffers[req.topicSubject()] == topicBuf {
 			delete(e.topicBuffers, req.topicSubject())
 
 			// Evict cached snapshot too because the topic buffer will have been spliced
@@ -461,12 +464,20 @@ func (e *EventPublisher) setCachedSnapshotLocked(req *SubscribeRequest, snap *ev
 	})
 }
 
-// forceEvictByTopicLocked will remove all entries from the snapshot cache for a given topic.
+// forceEvictByTopicLocked will remove all entries from the snapshot cache for a given topic,
+// and forget the topic's event buffers: the events in them describe the state that is being
+// replaced, so they must neither be spliced behind snapshots of the new state nor be used to
+// resume a subscription. Subscriptions that still read those buffers are closed by the caller.
 // This method should be called while holding the EventPublisher's lock.
 func (e *EventPublisher) forceEvictByTopicLocked(topic Topic) {
 	for key := range e.snapCache {
 		if key.Topic == topic.String() {
 			delete(e.snapCache, key)
+		}
+	}
+	for key := range e.topicBuffers {
+		if key.Topic == topic.String() {
+			delete(e.topicBuffers, key)
 		}
 	}
 }
